@@ -389,6 +389,9 @@ func runE2E(op string, rep *hx.Report) (lines, impl []string, skipped string) {
 	}()
 	lookup := func(domain string) (*sniproxy.Dest, error) {
 		switch {
+		case domain == "suspended.test":
+			// a lookup may say where the name used to live AND refuse it: the refusal counts
+			return &sniproxy.Dest{Name: "epa"}, fmt.Errorf("suspended")
 		case strings.HasSuffix(domain, ".test"):
 			return &sniproxy.Dest{Name: "ep" + strings.TrimSuffix(domain, ".test")}, nil
 		case domain == "home.lan":
@@ -434,7 +437,7 @@ func runE2E(op string, rep *hx.Report) (lines, impl []string, skipped string) {
 			}
 		}()
 	}
-	classes := []string{"a.test", "b.test", "c.test", "a.test", "b.test", "d.test", "x.unknown", "", "10.1.2.3", "fe80::1", "y.speedy.red", "z.after.blue", "home.lan", "fwd.lan", "aa.test.", "A.test"}
+	classes := []string{"a.test", "b.test", "c.test", "a.test", "b.test", "d.test", "x.unknown", "", "10.1.2.3", "fe80::1", "y.speedy.red", "z.after.blue", "home.lan", "fwd.lan", "aa.test.", "A.test", "suspended.test"}
 	if get("focus") != "" {
 		// many simultaneous connections for the same two endpoints: their dials overlap
 		classes = []string{"a.test", "a.test", "a.test", "b.test"}
